@@ -877,13 +877,18 @@ package sse
 //@ pure subsok(j) = j.subscribers != nil && allocated(j.subscribers) &&
 //@     all(d, "ref", has(j.subscribers, d) ==> d != nil && !chclosed(d) && chbuffered(d) == 0 && chcap(d) == 1 && d != j.closed)
 
+//@ pure subsokx(j, x) = j.subscribers != nil && allocated(j.subscribers) &&
+//@     all(d, "ref", d != x && has(j.subscribers, d) ==> d != nil && !chclosed(d) && chbuffered(d) == 0 && chcap(d) == 1 && d != j.closed)
+
 //@ func Joe.removeSubscriber
-//@   requires j != nil && j.subscribers != nil && sub != nil
-//@   requires not_closed_yet: !chclosed(sub)
+//@   requires j != nil && j.subscribers != nil
+//@   requires registered_subscribers_are_open: has(j.subscribers, sub) ==> sub != nil && !chclosed(sub)
 //@   modifies mapcell(j.subscribers), chancell(sub)
 //@   ensures removed: !has(j.subscribers, sub)
 //@   ensures others_untouched: all(d, "ref", d != sub ==> has(j.subscribers, d) == old(has(j.subscribers, d)) && j.subscribers[d] == old(j.subscribers[d]))
-//@   ensures closed_once: chclosed(sub) && chcap(sub) == old(chcap(sub)) && chbuffered(sub) == old(chbuffered(sub))
+//@   ensures registered_subscriber_closed_once: old(has(j.subscribers, sub)) ==> chclosed(sub) && chcap(sub) == old(chcap(sub)) && chbuffered(sub) == old(chbuffered(sub))
+//@   ensures unknown_subscriber_untouched: !old(has(j.subscribers, sub)) ==> chclosed(sub) == old(chclosed(sub)) && chcap(sub) == old(chcap(sub)) && chbuffered(sub) == old(chbuffered(sub))
+//@   ensures invariant_restored: old(subsokx(j, sub)) ==> subsok(j)
 
 //@ func Joe.closeSubscribers
 //@   requires j != nil && subsok(j)
@@ -915,3 +920,52 @@ package sse
 //@   ensures replay_called_once: ncalls() == old(ncalls()) + 1 && iscall(old(ncalls()), "Replay") && crecv(old(ncalls())) == old(*replay) && carg(old(ncalls()), "Replay", 0) == sub
 //@   ensures panic_disables_the_replayer: *replay == nil ==> hasdyn(err, "replayPanic")
 //@   ensures normal_return_passes_result: *replay != nil ==> *replay == old(*replay) && err == cret(old(ncalls()), "Replay", 0)
+
+
+//@ pure fanbase() = prev(ncalls()) + ite(prev(replay) != nil, 1, 0)
+//@ pure wassub(d) = prev(has(j.subscribers, d))
+//@ pure subof0(d) = prev(j.subscribers[d])
+//@ pure matches(d) = intersects(subof0(d).Topics, msg.topics)
+//@ pure sendof(d) = callatkeym(1, "Send", d)
+//@ pure flushof(d) = callatkeym(1, "Flush", d)
+//@ pure sentto(d) = fanbase() <= sendof(d) && sendof(d) < ncalls() && iscall(sendof(d), "Send") && crecv(sendof(d)) == subof0(d).Client && carg(sendof(d), "Send", 0) == msg.message && ckeyref(sendof(d)) == d
+//@ pure flushedto(d) = fanbase() <= flushof(d) && flushof(d) < ncalls() && iscall(flushof(d), "Flush") && crecv(flushof(d)) == subof0(d).Client && ckeyref(flushof(d)) == d && flushof(d) == sendof(d) + 1
+//@ pure failedsub(d) = matches(d) && (cret(sendof(d), "Send", 0) != nil || cret(flushof(d), "Flush", 0) != nil)
+//@ pure fancall(x) = (iscall(x, "Send") || iscall(x, "Flush")) && wassub(ckeyref(x)) && matches(ckeyref(x)) && crecv(x) == subof0(ckeyref(x)).Client &&
+//@     ite(iscall(x, "Send"), sendof(ckeyref(x)) == x && carg(x, "Send", 0) == msg.message, flushof(ckeyref(x)) == x && sendof(ckeyref(x)) == x - 1 && cret(x-1, "Send", 0) == nil)
+
+//@ func Joe.start
+//@   requires j != nil && subsok(j) && j.closed != nil && !chclosed(j.closed)
+//@   modifies mapcell(j.subscribers)
+//@   invariant 0 loop_owns_the_subscribers: j != nil && subsok(j) && j.closed != nil && !chclosed(j.closed)
+//@   invariant 1 fanout_keeps_the_rest_ok: j != nil && subsok(j) && j.closed != nil && !chclosed(j.closed)
+//@   invariant 1 reply_channel_closed: chclosed(msg.replayerErr) && !has(j.subscribers, msg.replayerErr) && !wassub(msg.replayerErr)
+//@   invariant 1 reply_channel_holds_the_put_error: chbuffered(msg.replayerErr) == ite(prev(replay) != nil && replay != nil && cret(prev(ncalls()), "Put", 1) != nil && !hasdyn(cret(prev(ncalls()), "Put", 1), "replayPanic"), 1, 0)
+//@   invariant 1 fanned_out_message_fixed: (prev(replay) != nil && replay != nil && cret(prev(ncalls()), "Put", 1) == nil && cret(prev(ncalls()), "Put", 0) != nil ==> msg.message == cret(prev(ncalls()), "Put", 0)) &&
+//@       (prev(replay) != nil && (replay == nil || (cret(prev(ncalls()), "Put", 1) != nil && !hasdyn(cret(prev(ncalls()), "Put", 1), "replayPanic"))) ==> msg.message == carg(prev(ncalls()), "Put", 0))
+//@   invariant 1 trace_only_grows: ncalls() >= fanbase() && (prev(replay) != nil ==> iscall(prev(ncalls()), "Put") && crecv(prev(ncalls())) == prev(replay) && carg(prev(ncalls()), "Put", 1) == msg.topics)
+//@   invariant 1 visited_were_subscribed: all(d, "ref", visited(1, d) ==> wassub(d))
+//@   invariant 1 visited_matching_got_the_message: all(d, "ref", visited(1, d) && matches(d) ==> sentto(d) && (cret(sendof(d), "Send", 0) == nil ==> flushedto(d)))
+//@   invariant 1 calls_are_for_visited_matching_subscribers: forall(x, fanbase(), ncalls(), fancall(x) && visited(1, ckeyref(x)))
+//@   invariant 1 failed_visited_are_gone_and_told: all(d, "ref", wassub(d) ==> ite(visited(1, d) && failedsub(d), !has(j.subscribers, d) && chclosed(d) && chbuffered(d) == 1, has(j.subscribers, d) && j.subscribers[d] == subof0(d)))
+//@   invariant 1 nobody_added: all(d, "ref", has(j.subscribers, d) ==> wassub(d))
+//@   step 0 message_put_first: incase(0) && prev(replay) != nil ==> ncalls() > prev(ncalls()) && iscall(prev(ncalls()), "Put") && crecv(prev(ncalls())) == prev(replay) && carg(prev(ncalls()), "Put", 1) == msg.topics
+//@   step 0 message_copy_with_id_is_fanned_out: incase(0) && prev(replay) != nil && replay != nil && cret(prev(ncalls()), "Put", 1) == nil && cret(prev(ncalls()), "Put", 0) != nil ==> msg.message == cret(prev(ncalls()), "Put", 0)
+//@   step 0 message_original_fanned_out_otherwise: incase(0) && prev(replay) != nil && (replay == nil || (cret(prev(ncalls()), "Put", 1) != nil && !hasdyn(cret(prev(ncalls()), "Put", 1), "replayPanic"))) ==> msg.message == carg(prev(ncalls()), "Put", 0)
+//@   step 0 put_error_goes_to_the_publisher: incase(0) && prev(replay) != nil && replay != nil && cret(prev(ncalls()), "Put", 1) != nil && !hasdyn(cret(prev(ncalls()), "Put", 1), "replayPanic") ==> chbuffered(msg.replayerErr) == 1
+//@   step 0 publisher_released: incase(0) ==> chclosed(msg.replayerErr) && chbuffered(msg.replayerErr) <= 1
+//@   step 0 every_matching_subscriber_got_the_message_once: incase(0) ==> all(d, "ref", wassub(d) && matches(d) ==> sentto(d) && (cret(sendof(d), "Send", 0) == nil ==> flushedto(d)))
+//@   step 0 only_matching_subscribers_called_each_once: incase(0) ==> forall(x, fanbase(), ncalls(), fancall(x))
+//@   step 0 only_failing_subscribers_removed_and_told: incase(0) ==> all(d, "ref", wassub(d) ==> ite(failedsub(d), !has(j.subscribers, d) && chclosed(d) && chbuffered(d) == 1, has(j.subscribers, d) && j.subscribers[d] == subof0(d)))
+//@   step 0 message_case_adds_nobody: incase(0) ==> all(d, "ref", has(j.subscribers, d) ==> wassub(d))
+//@   step 0 dead_replayer_stays_dead: prev(replay) == nil ==> replay == nil
+//@   step 0 replayer_only_replaced_by_nothing: replay == nil || replay == prev(replay)
+//@   step 0 subscription_without_replayer_registers: incase(1) && prev(replay) == nil ==> ncalls() == prev(ncalls()) && has(j.subscribers, sub.done) && j.subscribers[sub.done] == sub.Subscription && othersubs(j, sub.done)
+//@   step 0 subscription_replays_first: incase(1) && prev(replay) != nil ==> ncalls() == prev(ncalls()) + 1 && iscall(prev(ncalls()), "Replay") && crecv(prev(ncalls())) == prev(replay) && carg(prev(ncalls()), "Replay", 0) == sub.Subscription
+//@   step 0 failed_replay_is_reported_not_registered: incase(1) && prev(replay) != nil && replay != nil && cret(prev(ncalls()), "Replay", 0) != nil && !hasdyn(cret(prev(ncalls()), "Replay", 0), "replayPanic") ==>
+//@       !has(j.subscribers, sub.done) && chclosed(sub.done) && chbuffered(sub.done) == 1 && othersubs(j, sub.done)
+//@   step 0 replayed_or_panicked_subscription_registers: incase(1) && prev(replay) != nil && (replay == nil || cret(prev(ncalls()), "Replay", 0) == nil) ==>
+//@       has(j.subscribers, sub.done) && j.subscribers[sub.done] == sub.Subscription && !chclosed(sub.done) && chbuffered(sub.done) == 0 && othersubs(j, sub.done)
+//@   step 0 unsubscription_removes_without_calls: incase(2) ==> ncalls() == prev(ncalls()) && !has(j.subscribers, sub) && othersubs(j, sub)
+
+//@ pure othersubs(j, x) = all(d, "ref", d != x ==> has(j.subscribers, d) == prev(has(j.subscribers, d)) && j.subscribers[d] == prev(j.subscribers[d]))
